@@ -354,7 +354,8 @@ def _fuzz_campaign(args):
     import shutil
     import subprocess
     prop_id, cname, name, runs, fseed, max_len, corpus = args
-    work = os.path.join(VERIF_DIR, ".work", "fuzz", "%s-%s-%s" % (prop_id, cname, name))
+    # fresh corpus directory, private to this run (concurrent runs of the same check must not collide)
+    work = os.path.join(VERIF_DIR, ".work", "fuzz", "%s-%s-%s-%d" % (prop_id, cname, name, os.getpid()))
     shutil.rmtree(work, ignore_errors=True)
     cdir = os.path.join(work, "corpus")
     os.makedirs(cdir)
@@ -378,6 +379,7 @@ def _fuzz_campaign(args):
             with open(os.path.join(work, fn), "rb") as f:
                 crashes.append(f.read())
     ok = (r.returncode == 0) or bool(crashes)
+    shutil.rmtree(work, ignore_errors=True)
     return {"name": name, "runs_requested": runs, "executed": executed, "new_units": new_units, "seed": fseed,
             "seed_corpus": len(corpus), "crashes": crashes, "ok": ok, "returncode": r.returncode,
             "stderr_tail": err[-1500:] if not ok else "", "wall_s": round(time.time() - t0, 1)}
